@@ -9,7 +9,10 @@
   * `C06_no_overpull`: and it calls MoveNext exactly (elements visited) + (1 if it ran to exhaustion)
     times: leaving the loop early pulls nothing further;
   * what the iterators deliver is Go's range for strings and integers (C10 theorems, all inputs).
-  Partial: slices, maps, channels, the `:=` / `=` / blank variable forms, evaluation of the range
+  * `C04_slice_range`: a range over a slice visits Go's (index, element) pairs with the length snapshot and
+    live element reads, for every length, memory and body - a body that sees each pair, writes elements,
+    appends, reslices and may break - with the same final memory and no pull beyond the stop;
+  Partial: maps, channels, the `:=` / `=` / blank variable forms, evaluation of the range
   expression once, and the lowering itself (rewriter/range.go, rewrite.go) are covered by the template
   programs of correspondence `tb` against the same source on the reference coroutine, not by theorems.
   Open finding D4: range over an array aliases instead of copying.
@@ -43,5 +46,18 @@ theorem C04_string_range (bs : List Nat) (body : B → Nat × Nat → B × Bool)
     -- one more unit of fuel changes nothing: the string is exhausted after `length` runes at most
     exact rangeStrFrom_fuel bs
   rw [runLoop_eq_foldUntil strIter body (bs.length + 1) (newStrIter bs) acc 0 (by rw [hd]; exact Nat.lt_succ_of_le (rangeStr_length_le bs)), hd]
+
+/-- a range over a slice in a generator = Go's range statement over the slice: lowering ∘ iterator, for a
+    body that mutates the memory the slice lives in and may break -/
+theorem C04_slice_range {M V : Type} (read : M → Nat → Option V) (body : Nat → Option (Nat × V) → M → M × Bool)
+    (n : Nat) (m : M) :
+    loopSlice read body (n+1) (newSliceIter n) m 0 = goRangeSlice read body n 0 m 0 :=
+  loopSlice_eq_goRange read body n m
+
+/-! non-vacuity: sum the elements seen into cell 0 of a 4-cell array [0, 5, 6, 7] ranged over as a 4-element
+    slice, writing 100 into the next cell each round and breaking at index 2: sees 0, 100, 100 -/
+example : (goRangeSlice (M := List Nat) (fun m i => m[i]?)
+      (fun i e m => ((m.set 0 (m[0]?.getD 0 + (e.map (·.2)).getD 0)).set (i+1) 100, i == 2)) 4 0 [0, 5, 6, 7] 0)
+    = ([200, 100, 100, 100], 3) := by decide
 
 end GoCo.C04
